@@ -4,14 +4,19 @@ CFG = dict(
         level="proof",
         lean_modules=["ElysModel.Props.C05"],
         props_files=["ElysModel/Props/C05.lean"],
-        runs=[dict(mode="c05", n_quick=2500, n_thorough=72000, shards_quick=8, shards_thorough=14)],
+        runs=[dict(mode="c05", n_quick=2500, n_thorough=72000, shards_quick=8, shards_thorough=14),
+              dict(hist_run(nq=200, nt=400, sq=4, st=8, focus="lp."), driver="C05H"),
+              dict(hist_run(nq=200, nt=400, sq=4, st=8, focus="amm."), driver="C05H")],
         rule="differential cases on the real x/amm/types functions (Pool.ExitPool, CalcExitPool, Pool.JoinPool with all assets, "
              "CalcJoinPoolNoSwapShares, GetMaximalNoSwapLPAmount, GetMaximalNoSwapLPAmount->JoinPool, JoinPool->ExitPool round trips) on generated "
              "non-oracle pools of 2-4 assets: balances and share supplies log-uniform 10^0..10^30, lopsided pools, deposits from 1 unit to 10 x the pool, "
              "share requests 1..S-1 (and S, S+1), plus a boundary lattice (dust, S-1, thirds, zero balances, huge values); also single-asset joins of weighted "
              "non-oracle pools (Pow based, with a 420-bit reference) and single-sided joins / exits of ORACLE pools (stub price / accounted keepers, payout equal to "
              "the book balance); an evaluation is one case; "
-             "non-trivial = the call succeeded; distinct = distinct (function, arguments, result) tuples",
+             "non-trivial = the call succeeded; distinct = distinct (function, arguments, result) tuples. Plus history mode on the real app (driver C05H): every successful "
+             "single-asset exit from an oracle pool that is the only thing touching its pool in the block is judged against the pool's state one block earlier (payout value <= "
+             "pro-rata share of the pool's value at the oracle prices, value computed from the TRUE accounted balance book + liabilities - custody), and at the end of every "
+             "block the balance stored by the accounted-pool keeper - the base of all single-sided pricing - must equal that true balance",
         trusted_base=COMMON_TB + ["pool functions called directly on types.Pool values (keeper guards of ExitPool are modelled and proved about, not driven)"],
         assumptions=["theorems are about the all-asset join and the pro-rata exit of non-oracle pools; the single-asset weighted join and the oracle single-sided join/exit are ported, "
                      "checked differentially and their value predicates (C05.single_join_within_1e8, C05.oracle_join_value, C05.oracle_exit_value, C05.oracle_exit_never_empty) are "
